@@ -32,6 +32,8 @@ func profiles() map[string]world.Profile {
 	lifecycle := map[string]int{"AddRule": 22, "RemRule": 8, "EnableRule": 14, "ProcessEvent": 30, "Reload": 6,
 		"SetKey": 3, "AddFact": 4, "RemFact": 3, "SetParents": 3, "GetRule": 3, "ListRules": 3}
 	dispatch := map[string]int{"AddFact": 22, "RemFact": 6, "AddRule": 18, "RemRule": 5, "ProcessEvent": 40, "EnableRule": 4, "SetParents": 3}
+	index := map[string]int{"AddRule": 30, "RemRule": 14, "AddFact": 5, "RemFact": 3, "EnableRule": 4, "Clear": 3,
+		"ProcessEvent": 45, "SearchRules": 5, "Reload": 2}
 	ids := []string{"f1", "f2", "f3"}
 	return map[string]world.Profile{
 		"facts":    {Name: "facts", Len: 40, Locs: []string{"A"}, Ids: ids, MaxFacts: 1000, Weights: facts},
@@ -42,6 +44,7 @@ func profiles() map[string]world.Profile {
 		"capacity": {Name: "capacity", Len: 40, Locs: []string{"A"}, Ids: []string{"f1", "f2", "f3", "f4", "f5"}, Rules: true, MaxFacts: 3, Weights: capacity},
 		"lifecycle": {Name: "lifecycle", Len: 45, Locs: []string{"A", "B"}, Ids: []string{"r1", "r2"}, Rules: true, Parents: true, MaxFacts: 1000, Weights: lifecycle},
 		"dispatch": {Name: "dispatch", Len: 40, Locs: []string{"A", "B"}, Ids: []string{"r1", "r2", "r3", "f1", "f2"}, Rules: true, Dispatch: true, Parents: true, MaxFacts: 1000, Weights: dispatch},
+		"index":    {Name: "index", Len: 50, Locs: []string{"A"}, Ids: []string{"r1", "r2", "r3", "r4"}, Rules: true, Index: true, MaxFacts: 1000, Weights: index},
 		"parents":  {Name: "parents", Len: 45, Locs: []string{"A", "B", "C"}, Ids: []string{"f1", "f2", "r1", "r2"}, Rules: true, Parents: true, MaxFacts: 1000, Weights: parents},
 	}
 }
